@@ -35,7 +35,7 @@ def _gke_params(tier):
     return out
 
 
-@harness(P, params=_gke_params, bounds="group key envelope: version, flags, L0, L1, L2, private/public key length symbolic in [0,2^32); root key id symbolic; kdf/secret parameters, L1 key, L2 key of "
+@harness(P, per_job=True, params=_gke_params, bounds="group key envelope: version, flags, L0, L1, L2, private/public key length symbolic in [0,2^32); root key id symbolic; kdf/secret parameters, L1 key, L2 key of "
          "listed lengths (0..17 incl. odd, +63..65 thorough) with symbolic content; domain/forest names from {empty, ASCII, BMP, non-BMP}",
          outside="byte-field lengths not listed; other names", must_reach=("gke: bytes equal the MS-GKDI 2.2.4 reference", "gke: decode(encode(x)) == x"))
 def gke(c, n1, n2, n3, n4, dom, forest):
@@ -53,7 +53,7 @@ def gke(c, n1, n2, n3, n4, dom, forest):
     return len(b)
 
 
-@harness(P, params=lambda tier: [dict(n=n, dom=NAMES[i % 5], forest=NAMES[(i + 3) % 5]) for i, n in enumerate(_lens(tier) + [32, 36])],
+@harness(P, per_job=True, params=lambda tier: [dict(n=n, dom=NAMES[i % 5], forest=NAMES[(i + 3) % 5]) for i, n in enumerate(_lens(tier) + [32, 36])],
          bounds="key identifier: all integer fields symbolic in [0,2^32), root key id symbolic, key_info of listed lengths with symbolic content, listed names",
          must_reach=("keyid: bytes equal reference", "keyid: decode(encode(x)) == x"))
 def keyid(c, n, dom, forest):
@@ -81,7 +81,7 @@ def _kl(tier):
     return [1, 2, 3, 4, 32, 48] if tier == "quick" else [1, 2, 3, 4, 5, 8, 32, 48, 66, 128, 256]
 
 
-@harness(P, params=lambda tier: [dict(kl=k) for k in _kl(tier)], bounds="FFC DH parameters / FFC DH key / ECDH key with key_length in {1,2,3,4,32,48} (+{5,8,66,128,256} thorough) and every integer symbolic in "
+@harness(P, per_job=True, params=lambda tier: [dict(kl=k) for k in _kl(tier)], bounds="FFC DH parameters / FFC DH key / ECDH key with key_length in {1,2,3,4,32,48} (+{5,8,66,128,256} thorough) and every integer symbolic in "
          "[0, 2^(8*key_length)) - i.e. including every value with leading zero bytes; curves P256/P384/P521", outside="other key lengths",
          must_reach=("ffc dh parameters", "ffc dh key", "ecdh key"))
 def dhkeys(c, kl):
@@ -103,7 +103,7 @@ def dhkeys(c, kl):
     return kl
 
 
-@harness(P, params=lambda tier: [dict(n=n, rk=bool(i % 2)) for i, n in enumerate(_lens(tier))] + [dict(n=8, rk=False), dict(n=9, rk=True)],
+@harness(P, per_job=True, params=lambda tier: [dict(n=n, rk=bool(i % 2)) for i, n in enumerate(_lens(tier))] + [dict(n=8, rk=False), dict(n=9, rk=True)],
          bounds="GetKey request stub: target SD of listed lengths (every residue mod 8) with symbolic content, root key id present/absent (symbolic), L0/L1/L2 symbolic signed 32-bit",
          outside="SD lengths not listed", must_reach=("getkey: NDR64 request stub", "getkey: decode(encode(x)) == x"))
 def getkey_request(c, n, rk):
@@ -139,7 +139,7 @@ def getkey_response(c, n):
     return len(data)
 
 
-@harness(P, params=lambda tier: [dict(n=n, pad=p) for n in (range(0, 8) if tier == "quick" else range(0, 18)) for p in ([None, 0, 4, 12, 15] if tier == "quick" else [None] + list(range(16)))],
+@harness(P, per_job=True, params=lambda tier: [dict(n=n, pad=p) for n in (range(0, 8) if tier == "quick" else range(0, 18)) for p in ([None, 0, 4, 12, 15] if tier == "quick" else [None] + list(range(16)))],
          bounds="_process_get_key_result on a decrypted Response whose stub is the NDR64 reply (envelope length residues 0..7 / 0..17) followed by `pad` zero octets, with a security "
          "trailer declaring pad_length = pad (0..15) or without a security trailer: the envelope is extracted unchanged", must_reach=("getkey result: declared auth padding stripped, envelope extracted",))
 def getkey_result(c, n, pad):
